@@ -52,6 +52,11 @@ impl Tr {
         self.w[self.cur].write_all(&s).unwrap();
         self.w[self.cur].write_all(b"\n").unwrap();
         self.events += 1;
+        if self.sz.iter().sum::<usize>() > (3usize << 30) {
+            // runaway trace: something in the code under test does not terminate
+            eprintln!("RUNAWAY: trace exceeds 3 GiB");
+            std::process::exit(4);
+        }
     }
     pub fn case(&mut self, id: &str, prop: &str, extra: Value) {
         HEARTBEAT.fetch_add(1, Ordering::Relaxed);
